@@ -4,6 +4,7 @@ import Nstd.Avl.LemmasHeapClimb
 import Nstd.Avl.LemmasHeapRemove
 import Nstd.Avl.LemmasHeapDescend
 import Nstd.Avl.LemmasHeapThread
+import Nstd.Avl.LemmasHeapHint
 /-
   Property C01 — the tie of the rotation code, by translation instead of by test.
 
@@ -561,6 +562,46 @@ theorem gen_insert_thread_eq_model (multi : Bool) (h : Heap) (order : List Nat) 
       | nil => exact hxe
       | cons j js => simp only [headPtr]; intro e2; exact hx (by simp; omega)
   exact (insertThread_spliced h _ _ _ hX).2.2
+
+/-! ### the neighbour tests of the hinted insert -/
+
+/-- the model's `St.insertAt` is the decision `hintGo` (which neighbour tests succeed, with how many comparisons)
+    followed by the private insert in the chosen cell / the replacement of the hint's value -/
+theorem insertAt_is_hintGo (s : St) (p : Nat) (k v : Int) :
+    s.insertAt p k v = (hintGo s.multi s.t.inorder s.size p k).map (fun g =>
+      match g with
+      | .under right idx hid c0 => s.insertUnder right idx hid k v c0
+      | .root c0 => s.insertRoot k v c0
+      | .replace idx => ({ s with t := setAt v idx s.t }, ⟨.it idx, 2⟩)) :=
+  insertAt_eq_hintGo s p k v
+
+/-- **`Map::insert(position, key, value)`** of the current Map.hpp, up to the call of the private insert: with the
+    entries `es` threaded in the heap (`DList`, keys) and the hint at in-order position `p` (`p = length`: `end()`),
+    the code starts the private insert in exactly the cell the model's decision names — under the hint on the left /
+    right, under the last item, or at the root — or replaces the hint's value, after exactly the model's number of
+    key comparisons (all four neighbour cases of Map.hpp:125-155 and their fall-backs). -/
+theorem gen_insert_hint_map_eq_model (h : Heap) (es : List (Nat × Int × Int)) (p : Nat) (k v : Int) (c : Nat)
+    (hd : DList h h.beginItem 0 (es.map (fun e => e.1))) (hk : ∀ e ∈ es, h.key (e.1 + 1) = e.2.1)
+    (he : ∀ e ∈ es, e.1 + 1 ≠ h.endItem) (hp : p ≤ es.length) :
+    Map.insertHint h c (headPtr h ((es.drop p).map (fun e => e.1))) k v =
+      (match hintGo false es es.length p k with
+        | some (.under right _ hid c0) => (h, 1, hid + 1, cellOf (some (hid, right)), c + c0)
+        | some (.root c0) => (h, 1, 0, Cell.root, c + c0)
+        | some (.replace _) => (h.setValue (headPtr h ((es.drop p).map (fun e => e.1))) v, 0,
+            headPtr h ((es.drop p).map (fun e => e.1)), Cell.root, c + 2)
+        | none => (h, 1, 0, Cell.root, c)) :=
+  map_insertHint_eq h es p k v c hd hk he hp
+
+/-- **`MultiMap::insert(position, key, value)`** of the current MultiMap.hpp (`>=` / `<=` towards the neighbours). -/
+theorem gen_insert_hint_multi_eq_model (h : Heap) (es : List (Nat × Int × Int)) (p : Nat) (k v : Int) (c : Nat)
+    (hd : DList h h.beginItem 0 (es.map (fun e => e.1))) (hk : ∀ e ∈ es, h.key (e.1 + 1) = e.2.1)
+    (he : ∀ e ∈ es, e.1 + 1 ≠ h.endItem) (hp : p ≤ es.length) :
+    Multi.insertHint h c (headPtr h ((es.drop p).map (fun e => e.1))) k v =
+      (match hintGo true es es.length p k with
+        | some (.under right _ hid c0) => (1, hid + 1, cellOf (some (hid, right)), c + c0)
+        | some (.root c0) => (1, 0, Cell.root, c + c0)
+        | _ => (1, 0, Cell.root, c)) :=
+  multi_insertHint_eq h es p k v c hd hk he hp
 
 /-! ### non-vacuity: a concrete heap -/
 
